@@ -104,6 +104,24 @@ def mul (a b : Nat) : Nat :=
   | some x, some y => round ⟨x.neg != y.neg, x.m * y.m, x.e + y.e⟩
   | _, _ => nanBits
 
+/-- fused multiply-add `fl(a·b + c)`: ONE rounding of the exact `a·b + c` (`_mm256_fmadd_pd`, `vfmadd231pd`).
+Exact zero result: the common sign if product and addend have the same sign, else `+0` (IEEE-754 §6.3, RNE).
+`fmsub(a,b,c) = fma a b (neg c)`, `fnmadd(a,b,c) = fma (neg a) b c` (negation is exact). -/
+def fma (a b c : Nat) : Nat :=
+  match decode a, decode b, decode c with
+  | some x, some y, some z =>
+    let pn := x.neg != y.neg
+    let pm := x.m * y.m
+    let pe := x.e + y.e
+    if pm = 0 ∧ z.m = 0 then pack (pn && z.neg) 0
+    else if pm = 0 then c
+    else if z.m = 0 then round ⟨pn, pm, pe⟩
+    else
+      let e0 := min pe z.e
+      let s : Int := (if pn then -(pm : Int) else (pm : Int)) * 2 ^ (pe - e0).toNat + z.toInt * 2 ^ (z.e - e0).toNat
+      if s = 0 then 0 else round ⟨decide (s < 0), s.natAbs, e0⟩
+  | _, _, _ => nanBits
+
 /-- `x as f64` for an `i64` (any integer: RNE beyond 2^53) -/
 def ofInt (x : Int) : Nat := round ⟨decide (x < 0), x.natAbs, 0⟩
 
